@@ -15,21 +15,21 @@ SYN_ASSUME = [
     'eco_format!("expected {kind:?}") is replaced by an opaque producer of a non-empty EcoString (R5)',
 ]
 
-prop('C01', units=['syn'], level='proof',
+prop('C01', units=['syn'], level='proof', relevant=r'^unit::(?!completion::|lexspec::)',
      explanation=('Verus proves, for every text < 4 GiB, that syntax::parse builds a green tree whose text equals the input: '
                   'the tiling invariant inv_t (builder text == input prefix before the look-ahead) is carried through every '
                   'ParserBase method and all 78 grammar functions by their contracts, from Scanner cursor arithmetic up to '
                   'parse()\'s postcondition green_text(tree) == enc(text). Obligations = one Verus query per function of the syntax crate '
                   '(lexer, preprocessor, parser, grammar) plus the prelude lemmas.'),
      assumptions=SYN_ASSUME)
-prop('C02', units=['syn'], level='proof',
+prop('C02', units=['syn'], level='proof', relevant=r'^unit::(?!completion::|lexspec::)',
      explanation=('Verus proves termination (decreases: fuel = bytes left + look-ahead, lexicographic with a static rank; closures included) '
                   'and panic freedom (assert!/expect/unreachable!/rowan builder preconditions/TextRange::new/arithmetic overflow) for every '
                   'function of the syntax crate, and that every recorded SyntaxError has a non-empty message and a range inside the text on '
                   'char boundaries. The linear work bound is implied by fuel only per loop iteration and is not separately proved.'),
      assumptions=SYN_ASSUME)
 
-prop('C14', units=['syn'], level='proof',
+prop('C14', units=['syn'], level='proof', relevant=r'^unit::(lexer|lexspec|token_kind|prelude)::',
      explanation=('Verus proves that Lexer::next_token agrees with an independent reference lexer ref_lex (contracts/syn/lexspec.rs, written from the '
                   'TableGen Programmer\'s Reference / TGLexer: identifiers incl. digit-leading, decimal/hex/binary integers, strings with escapes, code '
                   'fragments, $names, all keywords and bang operators, punctuation, blanks, line comments, nested block comments, # directives) on every '
@@ -44,3 +44,13 @@ prop('C14', units=['syn'], level='proof',
          'R12: the closure literal in number() is bound to a local in the verified text so that ghost code can name it',
          'left unclaimed by the reference (ref_lex = None): 0x/0b look-alikes such as 0xg or 12x3, `#word` directly followed by a non-blank, invalid escapes, unterminated strings/comments, non-ASCII whitespace',
      ])
+
+prop('C20', units=['syn'], level='proof', relevant=r'^unit::(completion::|lexer::Lexer::(identifier|bangoperator|number|next_token)|grammar::statement::statement$|lexspec::)',
+     explanation=('Finite and exhaustive over the real tables: the const arrays TOPLEVEL_KEYWORDS, PRIMITIVE_TYPES, BOOLEAN_VALUES, BANG_OPERATORS are hoisted '
+                  'verbatim from completion.rs into the unit; one Verus obligation per entry states that the literal is an identifier word whose lexer '
+                  'table kind (kw_kind / bang_kind, which the real Lexer::identifier / Lexer::bangoperator are proved to implement) is exactly a statement '
+                  'keyword / type / boolean / bang operator; one obligation per lexable bang operator states that it occurs in BANG_OPERATORS; an assertion '
+                  'spliced into the error arm of grammar::statement proves that arm unreachable for a statement keyword. Not decided: class-name completion '
+                  '(symbol map, rowan) and that the copy loops offer exactly the table entries (ref patterns are unsupported by Verus; assumed).'),
+     assumptions=SYN_ASSUME + ['complete_* copy loops are external_body: assumed to offer exactly the entries of their const table plus the literal snippet labels',
+                               'const item types are rewritten from &str to &\'static str (what rustc elides) and the fn-local consts are hoisted to module level (R10)'])
